@@ -200,5 +200,16 @@ def finding_key(cex):
     return f"C05:{cex['obligation'].split('[')[0]}:n_o={cex['shape']['n_o']}:T={cex['shape']['n_t']}"
 
 
+DEFERRED_ERRORS = []
+
+
 def selftest(seed):
-    return sparse_selftest(seed, rounds=6)
+    from harness.geom import direction_contract
+    del DEFERRED_ERRORS[:]
+    n = sparse_selftest(seed, rounds=6)
+    try:
+        n += direction_contract()
+    except Exception:  # noqa: BLE001
+        import traceback
+        DEFERRED_ERRORS.append("contract of the direction grid's compiled geometry broken on a small real grid (DirStub assumes it):\n" + traceback.format_exc()[-1500:])
+    return n
